@@ -58,6 +58,35 @@ func invalidObjectName(name string) error {
 		"object key %q cannot be stored by this backend: keys must not contain empty, '.' or '..' path segments", name)
 }
 
+// keyConflict reports whether the object key 'name' (relative to root) cannot
+// be stored as a file because of the keys that already exist: either the key
+// itself is the directory of other keys ("a" while "a/b" exists), or one of its
+// parent directories is an object ("a/b" while "a" exists). Not every afero.Fs
+// refuses these on its own: on afero.MemMapFs the rename or MkdirAll succeeds
+// and silently destroys the other keys.
+func keyConflict(fs afero.Fs, root, name string) (bool, error) {
+	stat, err := fs.Stat(filepath.FromSlash(path.Join(root, name)))
+	if err == nil && stat.IsDir() {
+		return true, nil
+	} else if err != nil && !isNotExist(err) {
+		return false, err
+	}
+	for dir := path.Dir(name); dir != "." && dir != "/"; dir = path.Dir(dir) {
+		stat, err := fs.Stat(filepath.FromSlash(path.Join(root, dir)))
+		if err == nil && !stat.IsDir() {
+			return true, nil
+		} else if err != nil && !isNotExist(err) {
+			return false, err
+		}
+	}
+	return false, nil
+}
+
+func conflictingObjectName(name string) error {
+	return gofakes3.ErrorMessagef(gofakes3.ErrInvalidArgument,
+		"object key %q cannot be stored by this backend: it is, or lies below, the path of an existing key", name)
+}
+
 // isNotExist is os.IsNotExist, except that it also covers ENOTDIR: asking for
 // "a/b" while "a" is a regular file means "a/b" does not exist, it is not an
 // internal error.
